@@ -308,13 +308,22 @@ type dcall struct {
 // in same-package functions it calls statically.
 func deepCalls(fn *ssa.Function, pred func(ssa.CallInstruction) bool, depth int) []dcall {
 	var out []dcall
-	seen := map[*ssa.Function]bool{}
+	// a helper is visited once per call site that leads to it (a parametric helper called twice gives two contexts);
+	// recursion is cut by never re-entering a function that is already on the chain
+	seen := map[string]bool{}
 	var visit func(f *ssa.Function, chain []ssa.CallInstruction, d int)
 	visit = func(f *ssa.Function, chain []ssa.CallInstruction, d int) {
-		if seen[f] {
+		key := f.String()
+		for _, cs := range chain {
+			key += fmt.Sprintf("<%p", cs)
+			if cs.Parent() == f {
+				return
+			}
+		}
+		if seen[key] {
 			return
 		}
-		seen[f] = true
+		seen[key] = true
 		for _, ff := range WithAnon(f) {
 			instrsOf(ff, func(in ssa.Instruction) {
 				c, ok := in.(ssa.CallInstruction)
